@@ -22,6 +22,19 @@
 //  * Databases: wallet::MakeDatabase(<walletdir>/<name>) -> SQLite file <walletdir>/<name>/wallet.dat (+ "-journal"), opened with
 //    DatabaseOptions::use_unsafe_sync = false unless asked, so real fsync/fdatasync traffic reaches the simfs interposers.
 //
+// Recipe (see src/engines/c44_wallet_balance.cpp: Setup, Unload/Load, OpRestartNode)
+//    cs.tweak_opts = [&](NodeOpts& o) { o.make_runner = &MakeDeferredTaskRunner; o.listeners.push_back(my_recorder); ... };
+//    cs.StartNode();                                   // or your own SimNode
+//    WalletNode wn(*cs.node, WalletNodeOpts{.keypool = 5});
+//    auto w = wn.CreateWallet("w0", WalletCreateOpts{.seed = plan_knob});
+//    auto dest = wn.NewAddress(*w, OutputType::BECH32);  CScript spk = WalletNode::ScriptFor(*dest);   // pay it from chaingen blocks/txs
+//    SendSpec spec; spec.recipients = {WalletNode::Recipient(dest2, amount)}; SendResult r = wn.Send(*w, spec);
+//    cs.node->DrainSignals();  wn.GetBalance(*w, /*include_nonmempool=*/true);  wn.AvailableCoins(*w);
+//    wn.UnloadWallet(w);  ...  w = wn.LoadWallet("w0");
+//  Crash engines: put the SimNode datadir (hence <datadir>/wallets) under the simfs root, keep unsafe_sync = false, cut the log and
+//  start a second SimNode + WalletNode on the materialised image, LoadWallet there. SQLite draws its rollback-journal nonce from
+//  its own OS-seeded PRNG: journal BYTES differ between runs, the sequence/sizes of I/O operations do not.
+//
 // Lifetime rules (the borrowed objects die in SimNode::Stop)
 //    WalletNode wn(node);  ... wn.Detach();  node.Stop(clean);  node.Start();  wn.Attach();  wn.LoadWallet(name);
 //  Detach() unloads every wallet (clean unload: best-block locator written, notifications unregistered, database closed) and must
